@@ -391,12 +391,22 @@ def _expand(args):
                 if i not in fresh and any(a is b or np.may_share_memory(a, b) for j in fresh for a in sys_.objs[i].cores for b in sys_.objs[j].cores):
                     fresh.add(i); grow = True
         trs = [tr for tr in trs if model.ops[tr[0]].always or any(s_ in fresh for s_ in tr[1])]
+    base_digest = hashlib.blake2b(repr(canon(sys_)).encode(), digest_size=16).digest()
     trs = trs[part[0]::part[1]]          # the transitions of one state may be spread over several tasks (load balance)
     dirty = False
     for tr in trs:
         op = model.ops[tr[0]]
         if op.inplace or dirty:
-            sys_ = replay(model, pool, seed, history); out['replays'] += 1
+            try:
+                sys_ = replay(model, pool, seed, history); out['replays'] += 1
+                again = hashlib.blake2b(repr(canon(sys_)).encode(), digest_size=16).digest()
+            except Exception as e:
+                again = repr(e)
+            if again != base_digest:
+                nm = model.ops[history[-1][0]].base if history else 'initial'
+                out['fails'].append(('replay-diverged:%s' % nm, 'replaying the history a second time in the same process gives a different state (hidden state across calls)',
+                                     {'pool': pool, 'history': [list(map(_ser, h)) for h in history], 'ops': [model.ops[h[0]].name for h in history]}))
+                return out
             dirty = False
         n_before = len(sys_.objs)
         snap_lists = (list(sys_.objs), list(sys_.tags), list(sys_.shadows), sys_.n_init)
